@@ -1,6 +1,7 @@
 package main
 
 import (
+	"sort"
 	"path/filepath"
 	"fmt"
 	"go/ast"
@@ -191,6 +192,13 @@ func (ex *Exec) checkFrame(st *State, p *PtrV, pos token.Pos) {
 	}
 	var alts []*Term
 	alts = append(alts, Lt(top.EntryFull.Frontier, p.Ref))
+	// elements of struct slices whose backing array is fresh
+	if p.Ref.Op == "uf" && strings.HasPrefix(p.Ref.Name, "elemref:") && len(p.Ref.Args) == 2 {
+		alts = append(alts, Lt(top.EntryFull.Frontier, p.Ref.Args[0]))
+		if st.Fresh[p.Ref.Args[0]] {
+			return
+		}
+	}
 	// interior objects of fresh objects
 	if p.Ref.Op == "uf" && strings.HasPrefix(p.Ref.Name, "fld:") && len(p.Ref.Args) == 1 {
 		alts = append(alts, Lt(top.EntryFull.Frontier, p.Ref.Args[0]))
@@ -364,6 +372,7 @@ func (ex *Exec) havocLoop(st *State, fr *Frame, ld *loopDesc) {
 	heapAll := false
 	ghostAll := false
 	classes := map[string]bool{}
+	objHavoc := map[string][]*Term{} // class prefix -> objects of this function's frame stored to in the loop
 	// types every "may write anything" callee of the loop promises to leave alone (nil entry = no promise)
 	var promises [][]string
 	all := func(sp *FuncSpec) {
@@ -399,7 +408,23 @@ func (ex *Exec) havocLoop(st *State, fr *Frame, ld *loopDesc) {
 					} else if rootAlloc(x.Addr) != nil && !rootAlloc(x.Addr).Heap {
 						continue
 					}
+					// a struct-typed local of this function is one object: a store into it changes that object
+					// only - nothing at all when the object is created inside the loop body
+					if al := rootAlloc(x.Addr); al != nil && fn == fr.Fn {
+						if blocks != nil && blocks[al.Block()] {
+							continue
+						}
+						if pv, ok := fr.Regs[al].(*PtrV); ok && pv.Root == RObj && len(pv.Path) == 0 {
+							for _, c := range staticClasses(x.Addr) {
+								objHavoc[c] = append(objHavoc[c], pv.Ref)
+							}
+							continue
+						}
+					}
 					for _, c := range staticClasses(x.Addr) {
+						if c == "" && os.Getenv("VCGO_TRACE") != "" {
+							fmt.Fprintln(os.Stderr, "UNKNOWNCLASS store", x.Addr.String(), x.Addr.Type().String(), fn.Prog.Fset.Position(x.Pos()))
+						}
 						classes[c] = true
 					}
 				case *ssa.MapUpdate:
@@ -526,6 +551,14 @@ func (ex *Exec) havocLoop(st *State, fr *Frame, ld *loopDesc) {
 		}
 	}
 	scan(fr.Fn, ld.Blocks, fr.Depth)
+	if os.Getenv("VCGO_TRACE") != "" {
+		var ks []string
+		for c := range classes {
+			ks = append(ks, c)
+		}
+		sort.Strings(ks)
+		fmt.Fprintln(os.Stderr, "LOOPHAVOC", specName(fr.Fn), "heapAll", heapAll, strings.Join(ks, " "))
+	}
 	if heapAll {
 		// types that every such callee preserves and that the loop does not store to directly keep their state
 		keep := map[string]*Term{}
@@ -589,6 +622,20 @@ func (ex *Exec) havocLoop(st *State, fr *Frame, ld *loopDesc) {
 		nf := Fresh("hi", SInt)
 		st.assume(Le(st.Frontier, nf))
 		st.Frontier = nf
+	}
+	for c, refs := range objHavoc {
+		if heapAll || classes[c] {
+			continue
+		}
+		for class, srt := range classSorts {
+			if (classMatches(class, c) || class == c) && srt.Kind == KArr && srt.Idx == SInt {
+				h := st.heapGet(class, srt)
+				for _, r := range refs {
+					h = Store(h, r, Fresh("loop:"+class, srt.Elem))
+				}
+				st.Heap[class] = h
+			}
+		}
 	}
 	for c := range classes {
 		if heapAll && !isGhostClass(c) {
@@ -692,7 +739,16 @@ func (ex *Exec) staticModClasses(sp *FuncSpec, fn *ssa.Function, sig *types.Sign
 		switch x := e.(type) {
 		case *ast.ParenExpr:
 			return typeOf(x.X)
+		case *ast.CallExpr:
+			// as(x, T) / view(x, T): the static type is T
+			if id, ok := x.Fun.(*ast.Ident); ok && (id.Name == "as" || id.Name == "view") && len(x.Args) == 2 {
+				env := &SpecEnv{ex: ex, pkg: ex.specPkg(sp, fn)}
+				return env.resolveType(x.Args[1])
+			}
 		case *ast.Ident:
+			if le, ok := sp.Lets[x.Name]; ok {
+				return typeOf(le)
+			}
 			if fn != nil {
 				for _, p := range fn.Params {
 					if p.Name() == x.Name {
